@@ -26,6 +26,10 @@ pub struct Exp {
     pub res: Result<EV, Stop>,
     pub prec: Precision,
     pub ops: usize,
+    /// the tree of the specification's parser in the code's vocabulary (AstShape!Shape), when the specification accepts
+    pub shape: Option<serde_json::Value>,
+    /// the specification rejects the input: the code's parser must not return a tree
+    pub no_tree: bool,
 }
 
 pub fn dv_of_decimal(d: &rust_decimal::Decimal) -> DV { DV::Dec { c: BigInt::from_i128(d.mantissa()), s: d.scale() } }
@@ -35,7 +39,7 @@ pub fn expected(e: &str, t: &T, a: &Asg, ph: &Val) -> Exp {
         ($sem:expr, $wrap:expr) => {{
             let s = $sem;
             let r = eval(&s, t, a).map($wrap);
-            Exp { res: r, prec: s.flags().precision(), ops: s.flags().ops.get() }
+            Exp { res: r, prec: s.flags().precision(), ops: s.flags().ops.get(), shape: Some(crate::ast::rust_shape(t, a)), no_tree: false }
         }};
     }
     match (e, ph) {
